@@ -287,13 +287,14 @@ static void e3_run(const char *mode, long long idx, const std::vector<Script> &s
 	count("e3_schedules");
 	note_distinct(mix(hash_str(mode), mix(w.sig, hash_str(sdesc))));
 	rec.counters["sched_points"] += w.steps; rec.counters["sched_switches"] += w.switches;
+	{ static uint64_t max_steps = 0; if(out.kind == sched::Outcome::Ok && w.steps > max_steps) { max_steps = w.steps; rec.notes[std::string("max_points_in_a_completing_schedule:shard") + std::to_string(opt.shard)] = std::to_string(max_steps) + " (budget " + std::to_string(w.step_limit) + ")"; } }
 	std::string tail; for(size_t k = w.trace.size() > 60 ? w.trace.size() - 60 : 0; k < w.trace.size(); k++) tail += w.trace[k] + " ";
 	std::string ctx = std::string(mode) + " scripts{" + sdesc + "}";
 	auto flag = [&](const std::string &key, const std::string &what) { case_detail("%s :: log: %s :: last points: %s", ctx.c_str(), L.text.substr(0, 1500).c_str(), tail.substr(0, 1800).c_str()); violation("C11:qs:" + key, what + " [" + ctx + "]"); };
 	if(out.kind == sched::Outcome::Deadlock) flag("blocks-forever-deadlock", "a call can never return: " + out.detail);
 	else if(out.kind == sched::Outcome::Livelock) flag("blocks-forever-livelock", "workers spin forever: " + out.detail);
 	else if(out.kind == sched::Outcome::Panic) { if(out.detail.find("!_qs_deferred") != std::string::npos) count("offline_refused_deferred"); else flag("assert", "library assertion: " + out.detail); }
-	else if(out.kind == sched::Outcome::StepLimit) count("inconclusive_step_limit");
+	else if(out.kind == sched::Outcome::StepLimit) flag("no-progress-step-budget", "a schedule did not finish within the step budget (far above any completing run) although waiting workers are de-scheduled: some call makes no progress: " + out.detail);
 	else {
 		if(liveness_failed) flag("L-grace-period-lost", strf("a registered callback was not invoked within %d rounds in which every agent reported a quiescent state and the registering agent called run()", DRAIN_ROUNDS));
 		for(int i = 0; i < nw; i++) if(sched::g_smx.held.size() > (size_t)i && sched::g_smx.held[i]) flag("lock-left-held", "the domain mutex is still held after all operations returned");
